@@ -8,6 +8,7 @@ CFG_DESCRIPTION = {
     3: 'cfg3: five notify/indicate characteristics in two services (CCCD bits cross a byte)',
     4: 'cfg4: handler based characteristics (free/blob/mixin read and write handlers, no_read_access + notify, only_write_without_response)',
     5: 'cfg5: cfg0 + max_mtu_size<40>',
+    6: 'cfg6: small server, one service (128 bit UUID), 4 byte value (128 bit UUID, notify), 20 byte value, no GAP service',
 }
 ATT_A = {n: Unit('att_a%d' % n, shim='shims/att_a.cpp', flags=['-DATT_A_PART=%d' % n],
                  description='bluetoe::server<> ' + d + '; connection = server::channel_data_t<link_state> (real notification queue)')
@@ -39,19 +40,24 @@ QUICK0 = {0x02: [2, 3], 0x04: [5, 6], 0x06: [8, 9], 0x08: [6, 7, 21], 0x0A: [2, 
 MAIN = {0x02: [3], 0x04: [5], 0x06: [9], 0x08: [7, 21], 0x0A: [3], 0x0C: [5], 0x0E: [5], 0x10: [7], 0x12: [3, 5],
         0x52: [5], 0x16: [5, 7], 0x18: [2], 0x1E: [1], 0x01: [5], 0x1B: [3], 0x1D: [3]}
 # opcodes the server does not implement: Signed Write Command, unknown commands, unknown requests, responses, later spec versions
-UNHANDLED_QUICK = [0x03, 0x14, 0x20, 0x65, 0xD2, 0xFF]
 HANDLED = sorted(BOUNDARY)
-MAXLEN = {0: 23, 1: 23, 2: 65, 3: 23, 4: 23}
+MAXLEN = {0: 23, 1: 23, 2: 65, 3: 23, 4: 23, 6: 23}
 READ_MULTIPLE_MAX = {'quick': 7, 'thorough': 11}     # 3 / 5 handles
 # client MTU of the pre-state: 0 = fully symbolic (23..65535).  For the 65 byte server a symbolic MTU makes the list
 # requests too expensive (Read By Type: no verdict in 600 s), there the client MTU is a concrete value per case.
 SYMBOLIC_MTU_OK_65 = (0x02, 0x0A, 0x0C, 0x12, 0x52, 0x18, 0x1E, 0x01, 0x1B, 0x1D)
 
 
-def case(cfg, opc, length, outsz=None, nq=0, cmtu=None):
+# requests that walk the attribute table: with a symbolic client MTU no verdict in 600 s even on the 23 byte servers.  There the client
+# MTU is the concrete value 23; for a 23 byte server every client MTU >= 23 yields the same negotiated MTU (checked separately by C08,
+# exchange step: negotiated_mtu() == min(server maximum, client MTU)) and l2cap_input reads the client MTU only through negotiated_mtu().
+LIST_REQUESTS = (0x04, 0x06, 0x08, 0x0E, 0x10)
+
+
+def case(cfg, opc, length, outsz=None, nq=0, cmtu=None, cmdsym=0):
     if cmtu is None:
-        cmtu = 0 if cfg != 2 else 65
-    return {'CFG': cfg, 'OPC': opc, 'LEN': length, 'OUTSZ': outsz if outsz is not None else MAXLEN[cfg], 'NQ': nq, 'CMTU': cmtu}
+        cmtu = 65 if cfg == 2 else 23 if opc in LIST_REQUESTS else 0
+    return {'CFG': cfg, 'OPC': opc, 'LEN': length, 'OUTSZ': outsz if outsz is not None else MAXLEN[cfg], 'NQ': nq, 'CMTU': cmtu, 'CMDSYM': cmdsym}
 
 
 def all_cases(tier):
@@ -70,6 +76,8 @@ def all_cases(tier):
                 if q and (opc not in (0x04, 0x08, 0x0A, 0x0C, 0x10, 0x12, 0x16, 0x52, 0x0E) or l != MAIN[opc][0]):
                     continue
                 cs.append(case(cfg, opc, l))
+        if q:
+            cs += [case(cfg, 0x0A, 2), case(cfg, 0x52, 2)]    # one byte short
     # ---- cfg 2 (MTU up to 65, write queue)
     for opc in HANDLED:
         if opc == 0x18:
@@ -102,40 +110,71 @@ def all_cases(tier):
         if not q:
             cs.append(case(2, opc, l, outsz=80))
             cs.append(case(3, opc, l, outsz=27))
-    # ---- opcodes without handler
+    # ---- opcodes without handler.  Opcodes are taken without the command flag (bit 6); the flag is symbolic in these cases,
+    # so every case covers the opcode as request/unknown PDU and as command (known finding: commands are answered)
     if q:
-        for opc in UNHANDLED_QUICK:
-            cs.append(case(0, opc, 1))
-        cs.append(case(2, 0xD2, 5))
+        for opc in (0x03, 0x14, 0x20, 0x25, 0x92, 0xBF):
+            cs.append(case(0, opc, 1, cmdsym=1))
+        cs.append(case(2, 0x92, 5, cmdsym=1))
     else:
         for opc in range(256):
-            if opc in HANDLED:
+            if opc & 0x40 or opc in HANDLED or (opc | 0x40) in HANDLED:
                 continue
-            cs.append(case(0, opc, 3))
+            cs.append(case(0, opc, 3, cmdsym=1))
             if opc % 16 in (0, 2, 5):
-                cs.append(case(2, opc, 1))
-                cs.append(case(4, opc, 23))
+                cs.append(case(2, opc, 1, cmdsym=1))
+                cs.append(case(4, opc, 23, cmdsym=1))
+        cs += [case(0, 0xD2, 15), case(0, 0x12 | 0x80, 5)]
+    return cs
+
+
+# measured (loaded machine, 600 s limit): no verdict for the accepted lengths of the requests that walk the attribute table on the
+# configurations with 11..24 attributes, for 65 byte writes and for Execute Write with queued elements on cfg 2.  The quick tier runs
+# them on the small configuration 6 only; the thorough tier keeps them for all configurations (with a 1500 s limit).
+def heavy(c):
+    if c['CFG'] == 6:
+        return False
+    if c['OPC'] in (0x04, 0x08, 0x0E) and c['LEN'] in MAIN[c['OPC']] + [7]:
+        return True
+    if c['CFG'] == 2 and (c['LEN'] > 33 or (c['OPC'] == 0x18 and c['NQ'] > 0) or c['NQ'] > 1):
+        return True
+    return False
+
+
+def quick_small():
+    cs = []
+    for opc in HANDLED:
+        for l in sorted(set(BOUNDARY[opc])):
+            if opc == 0x0E and l > 7:
+                continue
+            cs.append(case(6, opc, l))
+    cs += [case(6, 0x08, 7, cmtu=0), case(6, 0x0A, 3, outsz=40), case(6, 0x08, 7, outsz=40), case(6, 0x25, 3, cmdsym=1)]
     return cs
 
 
 def cases_of(cfgs):
-    return lambda tier: [c for c in all_cases(tier) if c['CFG'] in cfgs]
+    def f(tier):
+        cs = all_cases(tier) + quick_small()
+        if tier == 'quick':
+            cs = [c for c in cs if not heavy(c)]
+        return [c for c in cs if c['CFG'] in cfgs]
+    return f
 
 
-COMMON = dict(timeout=600, flags=['-DVF_MAX_INPUTS=512'], diff_iters=300, diff_cases=6, unwindset=['in_bytes.0:101'])
+COMMON = dict(timeout=1500, flags=['-DVF_MAX_INPUTS=512'], diff_iters=300, diff_cases=6, unwindset=['in_bytes.0:101'])
 
 PROPERTY = Property(
     'C01',
-    [Harness('c01_att_cfg%d' % n, ATT_A[n], 'harness/c01_att.c', cases_of((n,)), unwind=70 if n == 2 else 34,
+    [Harness('c01_att_cfg%d' % n, ATT_A[n], 'harness/c01_att.c', cases_of((n,)), unwind=70 if n == 2 else 26 if n == 6 else 34,
              description='one l2cap_input() step from an arbitrary connection state, ' + CFG_DESCRIPTION[n],
-             bounds='opcode and PDU length concrete per case (see property bounds)', **COMMON) for n in (0, 1, 2, 3, 4)],
+             bounds='opcode and PDU length concrete per case (see property bounds)', **COMMON) for n in (0, 1, 2, 3, 4, 6)],
     functions=['server::l2cap_input', 'server::handle_exchange_mtu_request', 'server::handle_find_information_request', 'server::handle_find_by_type_value_request',
                'server::handle_read_by_type_request', 'server::handle_read_request', 'server::handle_read_blob_request', 'server::handle_read_by_group_type_request',
                'server::handle_read_multiple_request', 'server::handle_write_request', 'server::handle_write_command', 'server::handle_prepair_write_request',
                'server::handle_execute_write_request', 'server::handle_value_confirmation', 'server::check_size_and_handle(_range)', 'server::error_response',
                'details::write_queue<shared_write_queue<32>>', 'characteristic / characteristic_value / service attribute access functions of the listed configurations',
                'details::handle_index_mapping', 'details::attribute_access_arguments'],
-    bounds='5 server configurations; every opcode (thorough) x concrete PDU length 1..23 (1..65 for the 65 byte MTU server); all other PDU bytes, client MTU 23..65535, '
+    bounds='6 server configurations; every opcode (thorough) x concrete PDU length 1..23 (1..65 for the 65 byte MTU server); all other PDU bytes, client MTU 23..65535, '
            'security state, CCCD bytes, bound values, write queue contents symbolic; Read Multiple with at most 5 handles',
     assumptions=['output buffer handed to l2cap_input is at least 23 bytes (documented precondition, assert in l2cap_input)',
                  'client MTU of the pre-state >= 23 (invariant, re-established by every step; default after construction is 23)',
@@ -148,6 +187,6 @@ PROPERTY = Property(
                 'out_size <= min(buffer, negotiated MTU), the response opcode discipline of the statement (request -> opcode+1 or 5 byte Error Response naming it; commands, '
                 'confirmation, notification/indication and Error Response -> nothing), the ATT layout of positive responses, and the invariants afterwards, so the result '
                 'extends to request histories of any length by induction',
-    outside=['server configurations other than the five listed', 'Read Multiple Requests with more than 5 handles', 'PDUs longer than 65 bytes',
+    outside=['server configurations other than the six listed', 'quick tier: accepted-length Find Information / Read By Type / Read Multiple Requests, 65 byte writes and Execute Write with queued elements only on the small configuration 6 (no verdict within the time limit on the larger ones; kept in the thorough tier)', 'Read Multiple Requests with more than 5 handles', 'PDUs longer than 65 bytes',
              'include declarations / secondary services and encryption requirements (C03, C05)', 'undefined and response opcodes: silence and an Error Response are both accepted'],
 )
